@@ -636,7 +636,8 @@ theorem generated_key_persistent_choice_eq_model (sip : Option Nat → Nat) (h :
     | none =>
       by_cases h0 : w.poolSize = 0 <;> simp [h0]
 
-/-- round-robin router: next slot after `last_worker` (wrapping at `pool_size`), stored back. -/
+/-- round-robin router: an available hint — or (F10 fix) a hint that is the router's own last pick — is honoured,
+otherwise the next slot after `last_worker` (wrapping at `pool_size`), stored back. -/
 theorem generated_round_robin_choice_eq_model (sip : Option Nat → Nat) (h : Nat → Nat → Nat)
     (w : Factory.W) (j : Factory.Job) (hint : Option Nat)
     (hr : w.cfg.router = .rr) (hl : w.last + 1 < 2 ^ 64) :
@@ -644,14 +645,14 @@ theorem generated_round_robin_choice_eq_model (sip : Option Nat → Nat) (h : Na
     (r.2, r.1.last_worker) = ((w.chooseTargetWorker j hint).1, (w.chooseTargetWorker j hint).2.last) := by
   have hadd : Rust.wAdd 64 w.last 1 = w.last + 1 := by unfold Rust.wAdd; omega
   unfold RoundRobinRouting.choose_target_worker Factory.W.chooseTargetWorker
-  simp only [hr, hintAvailable_eq, hadd, Factory.rrNext]
+  simp only [hr, hintAvailable_eq, hintLast_eq, hadd, Factory.rrNext]
   by_cases h0 : w.poolSize = 0
   · simp [h0]
   · cases hb : Option.bind hint (fun x => Factory.getW w.pool x) with
     | none => simp [h0]
     | some p =>
       cases ha : p.isAvailable
-      · simp [h0, ha]
+      · by_cases hh : hint = some w.last <;> simp [h0, ha, hh]
       · simp [h0, ha]
 
 /-- custom router: `hasher.hash(key, pool_size) % pool_size`. The router has no state. -/
@@ -686,8 +687,8 @@ theorem generated_queuer_prefix_eq_model (sip : Option Nat → Nat) (h : Nat →
   | none => simp
   | some p => cases ha : p.isAvailable <;> simp [ha]
 
-/-- sticky queuer router: hinted worker processing the key, else any worker processing the key
-(first in pool order), else an available hinted worker, else the deque loop (`popAvail`). -/
+/-- sticky queuer router (since the F13 fix: `has_pending_key`, in flight or queued): hinted worker with the key pending,
+else any worker with the key pending (first in pool order), else an available hinted worker, else the deque loop (`popAvail`). -/
 theorem generated_sticky_queuer_prefix_eq_model (sip : Option Nat → Nat) (h : Nat → Nat → Nat)
     (w : Factory.W) (j : Factory.Job) (hint : Option Nat) (hr : w.cfg.router = .sq) :
     w.chooseTargetWorker j hint =
@@ -697,16 +698,16 @@ theorem generated_sticky_queuer_prefix_eq_model (sip : Option Nat → Nat) (h : 
         let (r, avail, inQ) := Factory.popAvail w.pool w.avail w.inQ
         (r, { w with avail := avail, inQ := inQ }) := by
   unfold StickyQueuerRouting.choose_before_deque Factory.W.chooseTargetWorker
-  simp only [hr, hintAvailable_eq, hintProcessing_eq]
-  have hfind := find_pairs w.pool (fun x => x.isProcessingKey j.key)
+  simp only [hr, hintAvailable_eq, hintPending_eq]
+  have hfind := find_pairs w.pool (fun x => x.hasPendingKey j.key)
   cases hb : Option.bind hint (fun x => Factory.getW w.pool x) with
   | none =>
     simp only [hfind]
-    cases hf : w.pool.find? (fun x => x.isProcessingKey j.key) <;> simp
+    cases hf : w.pool.find? (fun x => x.hasPendingKey j.key) <;> simp
   | some p =>
-    cases hp : p.isProcessingKey j.key
+    cases hp : p.hasPendingKey j.key
     · simp only [hfind, hp]
-      cases hf : w.pool.find? (fun x => x.isProcessingKey j.key)
+      cases hf : w.pool.find? (fun x => x.hasPendingKey j.key)
       · by_cases ha : p.isAvailable = true <;> simp [ha]
       · simp
     · simp [hp]
